@@ -1,10 +1,13 @@
 package checks
 
 import (
+	"errors"
 	"fmt"
 	"strings"
+	"time"
 
 	"github.com/gookit/rux"
+	"github.com/gookit/rux/pkg/handlers"
 
 	"verif/mc/fw"
 )
@@ -21,6 +24,9 @@ type c10Case struct {
 	Cache  bool     `json:"caching"`
 	NoGlob bool     `json:"no_global_middleware"`
 	MutNA  bool     `json:"not_allowed_handler_edits_its_slice,omitempty"`
+	// Detached: instead of a history, one request through handlers.Timeout whose handler is held inside the chain by
+	// the harness: ServeHTTP must not return (and so recycle the context) while the handler still runs
+	Detached string `json:"handler_held_under_timeout,omitempty"` // "expired" | "far"
 }
 
 func c10Gen(tier string, emit func(c10Case)) {
@@ -36,6 +42,10 @@ func c10Gen(tier string, emit func(c10Case)) {
 			maxPrefix = 1
 		} else {
 			maxPrefix = 2
+		}
+		if cfg < 8 {
+			emit(c10Case{Hook: cfg&1 != 0, OnErr: cfg&2 != 0, Cache: cfg&4 != 0, Detached: "expired"})
+			emit(c10Case{Hook: cfg&1 != 0, OnErr: cfg&2 != 0, Cache: cfg&4 != 0, Detached: "far"})
 		}
 		var rec func(p []string)
 		rec = func(p []string) {
@@ -59,9 +69,68 @@ func c10Gen(tier string, emit func(c10Case)) {
 	}
 }
 
+// c10Detached: the handler of GET /slow (behind handlers.Timeout) is held by the harness. ServeHTTP returning while it
+// is held means the context goes back to the pool with a handler still using it. The wait for "does not return" is a
+// bounded one (100 ms): it can only miss a violation, never invent one.
+func c10Detached(c c10Case, cfg kindCfg, st *fw.Stats) []fw.Viol {
+	var vs []fw.Viol
+	for _, last := range kindNames {
+		st.Evals++
+		st.Nontrivial++
+		k := newKindRouter(cfg)
+		d := time.Hour
+		if c.Detached == "expired" {
+			d = -time.Second
+		}
+		entered, proceed, served := make(chan struct{}), make(chan struct{}), make(chan struct{})
+		k.r.GET("/slow", func(ctx *rux.Context) {
+			close(entered)
+			<-proceed
+			ctx.Set("late", "value")
+			ctx.AddError(errors.New("late"))
+		}, handlers.Timeout(d))
+		base := newKindRouter(cfg)
+		base.r.GET("/slow", func(ctx *rux.Context) {}, handlers.Timeout(d))
+		go func() {
+			defer close(served)
+			k.doReq("GET", "/slow", nil)
+		}()
+		early := false
+		select {
+		case <-entered:
+			select {
+			case <-served:
+				early = true
+			case <-time.After(100 * time.Millisecond):
+			}
+		case <-served:
+			early = true
+		}
+		if early && len(vs) < 6 {
+			vs = append(vs, fw.Viol{Sig: "pristine:served-while-handler-runs", Msg: fmt.Sprintf("router{hook=%v onError=%v cache=%v} GET /slow behind handlers.Timeout(%v): ServeHTTP returned while the route's handler was still running (its context is back in the pool and the handler still holds it)", c.Hook, c.OnErr, c.Cache, d)})
+		}
+		if early {
+			// the held handler is never released: letting it go on would make it run on a recycled context (it may
+			// index past the next request's chain and bring the process down); this router is not used any further
+			continue
+		}
+		close(proceed)
+		<-served
+		got := k.do(last, nil)
+		want := base.do(last, nil)
+		if got.String() != want.String() && len(vs) < 6 {
+			vs = append(vs, fw.Viol{Sig: "pristine:context-state", Msg: fmt.Sprintf("router{hook=%v onError=%v cache=%v} GET /slow behind handlers.Timeout(%v) then %q: observed %s; on a fresh identical router: %s", c.Hook, c.OnErr, c.Cache, d, last, got, want)})
+		}
+	}
+	return vs
+}
+
 func c10Run(c c10Case, st *fw.Stats) []fw.Viol {
 	var vs []fw.Viol
 	cfg := kindCfg{Hook: c.Hook, OnError: c.OnErr, Cache: c.Cache, NoGlobal: c.NoGlob, MutNA: c.MutNA}
+	if c.Detached != "" {
+		return c10Detached(c, cfg, st)
+	}
 	for _, last := range kindNames {
 		st.Evals++
 		base := newKindRouter(cfg).do(last, nil)
@@ -74,6 +143,11 @@ func c10Run(c c10Case, st *fw.Stats) []fw.Viol {
 		if got.reused {
 			st.Inc("last_request_on_reused_context", 1)
 			st.Nontrivial++
+		}
+		if strings.Contains(got.snap, "PARAMS-NOT-FROM-ROUTE") || strings.Contains(base.snap, "PARAMS-NOT-FROM-ROUTE") {
+			if len(vs) < 6 {
+				vs = append(vs, fw.Viol{Sig: "pristine:params-not-from-route", Msg: fmt.Sprintf("router{hook=%v onError=%v cache=%v noGlobalMiddleware=%v} history [%s] then %q: observed %s; as the first request on a fresh identical router of this process: %s", c.Hook, c.OnErr, c.Cache, c.NoGlob, strings.Join(c.Prefix, ", "), last, got, base)})
+			}
 		}
 		if got.String() != base.String() {
 			sig := "pristine:" + last
@@ -99,7 +173,7 @@ func c10Run(c c10Case, st *fw.Stats) []fw.Viol {
 var c10Spec = fw.Spec[c10Case]{
 	ID:    "C10",
 	Level: "model_checking",
-	Rule: "complete enumeration: all request histories of length <=3 (quick: on 7 of the 12 router configurations, <=2 on the others; thorough 4 on all 13 configurations) over 30 request kinds (handler stores values / records errors / aborts / sets status and writes / replaces c.Resp / replaces c.Req / calls SetHandlers / dynamic routes with params / 404 / 405 / panics (also after recording an uncommitted status) / edits the url.Values of its query / renders a view that fails half way / renders a view / hijacks the connection / streams with Flush / re-dispatches with HandleContext / issues a nested ServeHTTP / copies the context) x {OnPanic hook} x {OnError handler} x {caching}, plus four configurations without any global middleware and with custom NotFound / NotAllowed chains, and one whose NotAllowed handler edits the allowed-methods slice it is given; a probe installed as first global middleware snapshots Data, Params, Errors, abort state, status, length, chain length, writer and request identity at entry; " +
+	Rule: "complete enumeration: all request histories of length <=3 (quick: on 7 of the 12 router configurations, <=2 on the others; thorough 4 on all 13 configurations) over 32 request kinds (handler stores values / records errors / aborts / sets status and writes / replaces c.Resp / replaces c.Req / calls SetHandlers / dynamic routes with params / 404 / 405 / panics (also after recording an uncommitted status) / edits the url.Values of its query / renders a view that fails half way / renders a view / hijacks the connection / streams with Flush / re-dispatches with HandleContext / issues a nested ServeHTTP / copies the context / adds an entry to the parameter map of a route without variables) x {OnPanic hook} x {OnError handler} x {caching}, plus four configurations without any global middleware and with custom NotFound / NotAllowed chains, and one whose NotAllowed handler edits the allowed-methods slice it is given; a probe installed as first global middleware snapshots Data, Params, Errors, abort state, status, length, chain length, writer and request identity at entry (the parameters found at entry must also be exactly those the request's route yields - an absolute expectation no twin of the same process is needed for), plus one request through handlers.Timeout (deadline passed / far) whose handler the harness holds inside the chain: ServeHTTP must not return meanwhile; " +
 		"differential oracle: the last request observes exactly what it observes as first request on a fresh identical router; non-trivial = history whose last request really ran on a context used earlier in the history (pointer identity)",
 	Assume: []string{"sync.Pool is the real one here (reuse is counted, not forced); the controlled pool of C03 forces reuse deterministically"},
 	Bounds: func(tier string) map[string]any {
